@@ -580,6 +580,22 @@ pub fn check_case(r: &mut Report, d: &mut Driver, case: &ImportCase, tag: &str) 
             }
         }
     }
+    // completeness ("a multi-URL import behaves like the union of its sources"; entries are
+    // skipped only for the stated reasons): every entry the raw peer data justifies with a
+    // non-empty local contribution is in the live view
+    if prop == "C07" {
+        for ((name, key), may) in &allowed {
+            if *may != 0 && !live.audits.get(name).map(|l| l.iter().any(|a| format!("{:?}", a.kind) == *key)).unwrap_or(false) {
+                r.fail("oracle", "C07/justified-audit-missing", format!("{name}: a served, importable, parseable audit {key} contributing local criteria {may} is not in the imported view"), &descr);
+            }
+        }
+        for ((name, user, s, e), may) in &allowed_w {
+            let present = live.wildcard_audits.get(name).map(|l| l.iter().any(|w| w.user_id == *user && (*w.start - gen::date(0)).num_days() == *s && (*w.end - gen::date(0)).num_days() == *e)).unwrap_or(false);
+            if *may != 0 && !present && !case.exclude.contains(name) {
+                r.fail("oracle", "C07/justified-wildcard-missing", format!("{name}: a served, parseable wildcard audit (user {user}, days {s}..{e}) contributing local criteria {may} is not in the imported view"), &descr);
+            }
+        }
+    }
     for (name, l) in &live.audits {
         if case.exclude.contains(name) && (prop == "C07") {
             r.fail("oracle", "C07/excluded-crate-audit-imported", format!("{name} is excluded but the live view has audits for it"), &descr);
